@@ -206,7 +206,10 @@ def _key_desc(kt: str):
 
 _U32 = st.one_of(st.integers(0, 0xFFFFFFFF), st.sampled_from([0, 1, 0x3FF, 0xFFFF, 0x10000, 0x80000000, 0xFFFFFFFF]))
 _BEACON = st.one_of(st.just(0), st.integers(1, 0xFFFF), st.integers(0x10000, 0xFFFFFFFF), st.sampled_from([1, 0xFFFF, 0xFFFFFFFF]))
-_UUID = st.one_of(st.just(bytes(16)), st.binary(min_size=16, max_size=16), st.binary(min_size=16, max_size=16))
+# device identifiers: wildcard (all zero), arbitrary, and numbers with zero bytes at the front or at the end (a UUID is 16 bytes, not a number)
+_UUID = st.one_of(st.just(bytes(16)), st.binary(min_size=16, max_size=16), st.binary(min_size=16, max_size=16),
+                  st.integers(1, 15).flatmap(lambda z: st.binary(min_size=16 - z, max_size=16 - z).map(lambda t: bytes(z) + (t if t[0] else b"\x01" + t[1:]))),
+                  st.integers(1, 15).flatmap(lambda z: st.binary(min_size=16 - z, max_size=16 - z).map(lambda t: t + bytes(z))))
 
 
 def _class_of(info: dict) -> str:
@@ -330,6 +333,8 @@ def run_dc(case, o: Oracle) -> None:
         o.label("multi_rot")
     if any(uuid):
         o.label("uuid_nonzero")
+        if not any(uuid[:4]):
+            o.label("uuid_leading_zero_word")
     if cb:
         o.label("beacon_nonzero")
     if cb > 0xFFFF:
